@@ -9,7 +9,8 @@ from .xsmt_common import xr2smt
 OUT = [
     "JSON serialise/deserialise (serde + string escapes) and int<->text in base 2..36 (num-bigint text conversion is not modelled)",
     "the float seconds field of Datetime and non-integral Unix times; Julian day numbers < 0 (JDN is defined from 0) and > the stated bound",
-    "fractions (normalisation goes through float division and a symbolic-divisor gcd; see C14's gcd query for the integer part)",
+    "fraction arithmetic (add/sub/mul/div/pow) and fractions beyond |n|, |d| <= 8 (14 thorough): only the normalising constructor is decided; "
+    "its float divisions are modelled as exact integer divisions (valid below 2^53)",
     "chr/code_point inverse (decided in C18's natives)",
 ]
 
@@ -87,6 +88,16 @@ def build_queries(tier, fns, structs, src):
         T(back), T(dt["hours"]), T(dt["hours"]), T(dt["minutes"]), T(dt["minutes"]), T(dt["seconds"]), T(dt["seconds"]), valid_date(enc, dt["date"]))
     qs.append(xc.Q("c20_unix_roundtrip", enc, ["(declare-const u Int)"], ["(and (>= u %s) (<= u %s))" % (T(ulo), T(uhi))], prop,
                    "integral Unix seconds %d <= u <= %d" % (ulo, uhi), "include.rs: datetime, unix, date, julian_day"))
+    # 5. fraction(n, d): lowest terms, positive denominator, same value
+    B = 8 if tier == "quick" else 14
+    enc = xr2smt.Enc(fns, structs, rec_bound=8)
+    F = call(enc, "fraction", "n", "d")
+    fn_, fd_ = T(F["n"]), T(F["d"])
+    coprime = " ".join("(not (and (= (mod %s %d) 0) (= (mod %s %d) 0)))" % (fn_, k, fd_, k) for k in range(2, B + 1))
+    qs.append(xc.Q("c20_fraction_normal", enc, ["(declare-const n Int)", "(declare-const d Int)"],
+                   ["(and (>= n %s) (<= n %d) (>= d %s) (<= d %d) (not (= d 0)))" % (T(-B), B, T(-B), B)],
+                   "(and (> %s 0) (= (* %s d) (* n %s)) %s)" % (fd_, fn_, fd_, coprime),
+                   "|n|, |d| <= %d, d != 0; gcd recursion unrolled 8 levels" % B, "include.rs: fraction(n, d), gcd, sign, abs"))
     return qs
 
 
@@ -150,7 +161,22 @@ def replayers():
         return spec, None
     import functools
     per_month = {"c20_date_roundtrip_m%02d" % k: functools.partial(date_rt, m=k) for k in range(1, 13)}
-    return {**per_month, "c20_jd_roundtrip": jd_rt, "c20_jd_valid_date": jd_rt, "c20_weekday_succ": wd, "c20_unix_roundtrip": ux}
+    def frac(model):
+        n, d = model.get("n"), model.get("d")
+        import math
+        lit = lambda v: "(-%d)" % -v if v < 0 else str(v)  # noqa
+        src = "let f = fraction(%s, %s); let fn_ = f::n; let fd = f::d;" % (lit(n), lit(d))
+        spec = dict(source=src, bindings=["fn_", "fd"])
+        got = core.Native.get().run(spec)
+        if got.get("panic"):
+            return spec, "interpreter panicked: %s" % got["panic"]
+        v = got.get("values", {})
+        g = math.gcd(n, d)
+        want = (n // g * (1 if d > 0 else -1), abs(d) // g)
+        if (v.get("fn_"), v.get("fd")) != ({"int": str(want[0])}, {"int": str(want[1])}):
+            return spec, "fraction(%d, %d) = %s/%s, expected %d/%d" % (n, d, v.get("fn_"), v.get("fd"), want[0], want[1])
+        return spec, None
+    return {**per_month, "c20_fraction_normal": frac, "c20_jd_roundtrip": jd_rt, "c20_jd_valid_date": jd_rt, "c20_weekday_succ": wd, "c20_unix_roundtrip": ux}
 
 
 def validate_translator(chk, qs, n):
@@ -161,7 +187,9 @@ def validate_translator(chk, qs, n):
     checked = 0
     for q in qs:
         for _ in range(n):
-            if q.name in ("c20_jd_roundtrip", "c20_jd_valid_date", "c20_weekday_succ"):
+            if q.name == "c20_fraction_normal":
+                fix = {"n": rnd.randrange(-8, 9), "d": rnd.choice([-8, -5, -3, -2, -1, 1, 2, 3, 4, 6, 7])}
+            elif q.name in ("c20_jd_roundtrip", "c20_jd_valid_date", "c20_weekday_succ"):
                 fix = {"jd": rnd.randrange(0, 3_000_000)}
             elif q.name == "c20_unix_roundtrip":
                 fix = {"u": rnd.randrange(-10**10, 10**11)}
